@@ -170,7 +170,9 @@ class PairType(MichelsonType, ADTMixin, prim='pair', args_len=None):
     def access_comb(self, idx: int) -> MichelsonType:
         return next(item for i, item in enumerate(self.iter_comb(include_nodes=True)) if i == idx)
 
-    def update_comb(self, idx: int, element: MichelsonType) -> 'PairType':
+    def update_comb(self, idx: int, element: MichelsonType) -> MichelsonType:
+        if idx == 0:  # the whole value is replaced
+            return element
         if idx % 2 == 1:
             leaves = [element if 2 * i + 1 == idx else item for i, item in enumerate(self.iter_comb())]
         else:
